@@ -17,10 +17,11 @@ CONSTANTS Proto,       \* "http" | "scgi" | "fcgi"
           Level,       \* size of the request family (1 quick, 2 full)
           MaxChain,    \* keep-alive chain length (http)
           Pads,        \* FastCGI padding lengths explored
-          Caps         \* FastCGI read-ahead cache sizes explored
+          Caps,        \* FastCGI read-ahead cache sizes explored
+          MaxRead      \* 0: every read size; k > 0: read sizes 1..k and "everything available"
 
-VARIABLES reqs, wire, taken, st, obs, cap
-vars == <<reqs, wire, taken, st, obs, cap>>
+VARIABLES reqs, ref, wire, taken, st, obs, cap
+vars == <<reqs, ref, wire, taken, st, obs, cap>>
 
 \* ------------------------------------------------------------------ the request family
 ScriptsM == << <<47, 115>> >>                       \* http.script_names = ["/s"]
@@ -48,7 +49,12 @@ GatewayFamily ==
     { Req(<<47, 115>>, p, qq[1], qq[2], hs, b[1], b[2], b[3], b[4]) :
         p \in {<<>>, <<47, 97, 32, 200>>}, qq \in {<<FALSE, <<>>>>, <<TRUE, <<120, 61, 49>>>>},
         hs \in (IF Level >= 2 THEN {<<>>, <<h1>>, <<h2, h3>>} ELSE {<<>>, <<h2, h3>>}), b \in Bodies }
-Family == IF Proto = "http" THEN { r \in HttpFamily : WellScripted(r) } ELSE GatewayFamily
+Base1 == Req(<<47, 115>>, <<47, 97>>, TRUE, <<120, 61, 49>>, <<h1>>, FALSE, <<>>, FALSE, <<>>)
+Base2 == Req(<<>>, <<47, 97, 32, 200>>, FALSE, <<>>, <<h2>>, TRUE, <<97, 61, 49, 38, 98, 61, 37, 50, 48>>, TRUE, S_FORM)
+Differs(r, b) == Cardinality({ f \in {"script", "path", "q", "hdrs", "body"} : r[f] # b[f] }) <= 1
+Family0 == LET all == IF Proto = "http" THEN { r \in HttpFamily : WellScripted(r) } ELSE GatewayFamily
+           IN IF Level >= 2 \/ Proto # "http" THEN all ELSE { r \in all : Differs(r, Base1) \/ Differs(r, Base2) }
+Family == IF Level = 0 THEN { r \in Family0 : r.hdrs = <<h1>> /\ r.path = <<47, 97>> } ELSE Family0
 
 \* second request of a keep-alive chain
 ChainTail == { Req(<<47, 115>>, <<47, 97>>, FALSE, <<>>, <<>>, FALSE, <<>>, FALSE, <<>>),
@@ -94,23 +100,25 @@ Init ==
           /\ \E r1 \in ChainHead, r2 \in ChainTail, f \in BOOLEAN :
                 reqs = <<r1, r2>> /\ wire = HttpEncode(r1, f) \o HttpEncode(r2, ~f)
     /\ cap \in Caps
+    /\ ref = [i \in DOMAIN reqs |-> RefObs(reqs[i])]
     /\ taken = 0 /\ st = ProtoInit /\ obs = <<>>
 
 \* one socket read: the front-end gets n bytes, 1 <= n <= what its pending read asks for.  Every sequence of
 \* read sizes that some delivery schedule of the network can produce is a behaviour.
 CanRead == taken < Len(wire) /\ st.phase \notin {"done", "err"} /\ Want(st) > 0
+ReadSizes(m) == IF MaxRead = 0 THEN 1..m ELSE (1..Min(m, MaxRead)) \cup {m}
 ServerRead ==
     /\ CanRead
-    /\ \E n \in 1..Min(Want(st), Len(wire) - taken) :
+    /\ \E n \in ReadSizes(Min(Want(st), Len(wire) - taken)) :
           LET r == Settle(Feed(st, SubSeq(wire, taken + 1, taken + n)), obs, Len(reqs))
           IN taken' = taken + n /\ st' = r.st /\ obs' = r.obs
-    /\ UNCHANGED <<reqs, wire, cap>>
+    /\ UNCHANGED <<reqs, ref, wire, cap>>
 
 Next == ServerRead
 Spec == Init /\ [][Next]_vars
 
 SegInv == /\ Len(obs) <= Len(reqs)
-          /\ \A i \in DOMAIN obs : obs[i] = RefObs(reqs[i])
+          /\ \A i \in DOMAIN obs : obs[i] = ref[i]
           /\ st.phase # "err"
 NotStuck == ~CanRead => (Len(obs) = Len(reqs) /\ taken = Len(wire))
 
